@@ -79,3 +79,27 @@ pub proof fn lemma_mod_split(v: nat, m: nat)
 }
 pub proof fn lemma_pow256_mono(a: nat, b: nat) requires a <= b ensures pow256(a) <= pow256(b) decreases b
 { if a < b { lemma_pow256_mono(a, (b - 1) as nat); lemma_pow256_pos((b - 1) as nat); assert(pow256(b) == 256 * pow256((b - 1) as nat)); } }
+
+// replacing digit k changes the value by (new - old) * 256^(n-1-k)
+pub proof fn lemma_be_val_update(s: Seq<u8>, k: int, v: u8)
+    requires 0 <= k < s.len(),
+    ensures be_val(s.update(k, v)) as int == be_val(s) as int + (v as int - s[k] as int) * pow256((s.len() - 1 - k) as nat) as int,
+    decreases s.len()
+{
+    let n = s.len() as int;
+    let u = s.update(k, v);
+    if k == n - 1 {
+        assert(u.drop_last() =~= s.drop_last());
+        assert(pow256(0) == 1);
+    } else {
+        assert(u.drop_last() =~= s.drop_last().update(k, v));
+        assert(u.last() == s.last());
+        lemma_be_val_update(s.drop_last(), k, v);
+        let e = (n - 2 - k) as nat;
+        assert(pow256((n - 1 - k) as nat) == 256 * pow256(e));
+        let d = v as int - s[k] as int;
+        assert((be_val(s.drop_last()) as int + d * pow256(e) as int) * 256 == be_val(s.drop_last()) as int * 256 + d * (256 * pow256(e)) as int) by (nonlinear_arith);
+    }
+}
+pub proof fn lemma_be_val_bound(s: Seq<u8>) ensures be_val(s) < pow256(s.len()) decreases s.len()
+{ if s.len() > 0 { lemma_be_val_bound(s.drop_last()); assert(pow256(s.len()) == 256 * pow256((s.len() - 1) as nat)); } }
